@@ -136,4 +136,11 @@ def templates(tier, seed):
         for strict in (False, True, "filter"):
             for ordered in (False, True):
                 ts.append(Template(f"LBL/{''.join(arr)}/strict={strict}/ordered={int(ordered)}", label_twin_case, (arr, strict, ordered)))
+    # stage 2: whole-schema equivalence on the frame models (same cell variables on both sides) and the polars verdict against
+    # the backend-neutral oracle C01 uses for pandas
+    import tmpl
+    import tmpl_pl
+
+    ts += [Template(tid, fn, args) for tid, fn, args in tmpl_pl.equiv_cases(tier)]
+    ts += [Template(tid, tmpl.pick(fn, ["verdict"]), args) for tid, fn, args in tmpl_pl.verdict_cases(tier)]
     return ts
